@@ -103,6 +103,8 @@ package netsample
 //@ props C10 C19
 //@ nilsafe
 //@ modifies nothing
+//@ loop 0 invariant imp(err0 == nil, err == nil)
+//@ loop 1 invariant imp(err0 == nil, err == nil)
 //@ ensures [nil-error-has-the-legacy-code] imp(err == nil, result == 999)
 
 // The sample reported for a discarded shot: net code 777, tag "discarded".
@@ -113,7 +115,7 @@ package netsample
 //@ ensures DiscardedShootCodeError == 777 && DiscardedShootTag == "discarded"
 
 //@ func Acquire
-//@ props C10 C11
+//@ props C10 C11 C07 C06
 //@ env pooltype(samplePool, *Sample)
 //@ ensures [a-blank-sample-with-the-tag] result != nil && fresh(result) && result.tags == tag && result.id == 0 && result.err == nil && forall(k, 0, 10, result.fields[k] == 0)
 //@ modifies nothing
